@@ -80,6 +80,22 @@ def run(ctx):
     with warnings.catch_warnings():
         warnings.simplefilter('ignore'); root.write(b)
     PC.judge_package(ctx, b.getvalue(), {'history': 'mid.addObject(leaf); root.addObject(mid); root.write()'}, root.mimetype, cause='child-attached-before-parent')
+    # a loaded object's picture is kept among the extra files of the package, not in the object's own Pictures: registering it again on
+    # the object (what an application that edits the chart does) names the member twice - the premise extras_apart of C03_no_member_twice
+    from odf.opendocument import load
+    c = P.content_xml('<chart:chart chart:class="chart:bar"><chart:plot-area/></chart:chart>', kind='chart')
+    obj = '<text:p><draw:frame draw:name="o" svg:width="5cm" svg:height="2cm"><draw:object xlink:href="./Object 1" xlink:type="simple"/></draw:frame></text:p>'
+    src = P.make_package([('content.xml', P.content_xml(obj), 'text/xml'), ('styles.xml', P.styles_xml(), 'text/xml'), ('meta.xml', P.meta_xml(), 'text/xml'),
+                          ('Object 1/', '', MIMEC), ('Object 1/content.xml', c, 'text/xml'), ('Object 1/styles.xml', P.styles_xml(), 'text/xml'),
+                          ('Object 1/Pictures/in.png', b'PNG1', 'image/png')])
+    d = load(io.BytesIO(src)); d.childobjects[0].addPicture('Pictures/in.png', 'image/png', b'PNG1')
+    b = io.BytesIO()
+    with warnings.catch_warnings():
+        warnings.simplefilter('ignore'); d.write(b)
+    prem = [x == '1' for x in ctx.get_driver().call('pkg_premises', PC.model_topdoc(d))]
+    ctx.bump('re-registered object picture: premises pairs_distinct=%d shape_ok=%d extras_apart=%d' % tuple(prem))
+    PC.judge_package(ctx, b.getvalue(), {'history': "load(package with Object 1/Pictures/in.png); childobjects[0].addPicture('Pictures/in.png', ..); write()"}, d.mimetype,
+                     [('Object 1/', MIMEC)], cause='loaded-object-picture-registered-again')
 
 def synthetic(rng, i=None):
     c = P.content_xml('<text:p>obj</text:p>'); s = P.styles_xml()
